@@ -42,9 +42,13 @@ impl Report {
     pub fn new(prop: &str, part: &str, level: &'static str, rule: &str) -> Self {
         let tier = std::env::var("VERIF_TIER").unwrap_or_else(|_| "quick".into());
         let seed = std::env::var("VERIF_SEED").ok().and_then(|s| s.parse().ok()).unwrap_or(1);
+        // RVX_PROP_AS / RVX_PART_AS: run an engine on behalf of another property (C18 re-runs the C07/C09
+        // spaces under the overflow-checking build)
+        let prop = std::env::var("RVX_PROP_AS").unwrap_or_else(|_| prop.to_string());
+        let part = std::env::var("RVX_PART_AS").unwrap_or_else(|_| part.to_string());
         Report {
-            prop: prop.into(),
-            part: part.into(),
+            prop,
+            part,
             tier,
             seed,
             level,
